@@ -22,7 +22,7 @@
    (is_computed, set_value, set_error, subscribe, guarded reads) and then completes the dependency
    with [pdep].  The yield sits in a try/except GeneratorExit whose handler is the phase's
    [cleanup]: what the generator does when it is closed while suspended there.                     *)
-From Asynq Require Export Base Futures.
+From Asynq Require Export Base Futures BatchFut.
 
 (* what the generator does when close() reaches it at the yield of this phase *)
 Inductive cleanup :=
@@ -171,14 +171,17 @@ Definition run_task (ph : list phase) (fin : pout) (ops : list op)
 (* single entry point for the correspondence: plain futures (Futures.run_case) or scheduled tasks *)
 Inductive anycase :=
 | CFut (k : kind) (p : list pout) (o : outcome) (ops : list op)
-| CTask (ph : list phase) (fin : pout) (ops : list op).
+| CTask (ph : list phase) (fin : pout) (ops : list op)
+| CBatch (its : list ispec) (fin : pout) (ops : list bop).   (* a batch and its items as futures: BatchFut.v *)
 
 Inductive anyout :=
 | OutFut (r : list res * list (Z * outcome) * Z * list Z)
-| OutTask (r : list res * list res * list (Z * outcome) * Z * list Z).
+| OutTask (r : list res * list res * list (Z * outcome) * Z * list Z)
+| OutBatch (r : list res * list res * list blogrec * Z * list Z * list (option outcome * list Z)).
 
 Definition run_any (c : anycase) : anyout :=
   match c with
   | CFut k p o ops => OutFut (Futures.run_case k p o ops)
   | CTask ph fin ops => OutTask (run_task ph fin ops)
+  | CBatch its fin ops => OutBatch (run_batch its fin ops)
   end.
